@@ -16,6 +16,7 @@ from .display import _printr
 from .naming import _sanitize_user_name
 from .typing import DataType
 from .typing import infer_dtype
+from .typing import kind_of_type
 from .typing import validate_scalar
 
 from copy import deepcopy
@@ -422,8 +423,9 @@ class Vector():
 
 		# Now decide dtype using the *logical* type, not the callable
 		if isinstance(py_target_type, type) and all(x is None for x in out):
-			# nothing to type (empty / all None): the requested type is all there is
-			new_dtype = DataType(py_target_type, nullable=has_none)
+			# nothing to type (empty / all None): the requested type is all there is - as the kind
+			# its instances would be given (a subclass of a builtin kind counts as that kind)
+			new_dtype = DataType(kind_of_type(py_target_type), nullable=has_none)
 		else:
 			# typed by the library's own rule applied to the converted values: a subclass of a
 			# builtin kind (an IntEnum, a str subclass) counts as that kind, as in inference
